@@ -844,3 +844,26 @@ impl Default for FailSafe {
         Self::new()
     }
 }
+
+#[cfg(feature = "verif")]
+impl FailSafe {
+    /// Verification hook: a plain-data copy of the fail-safe context.
+    pub fn verif_snap(&self) -> crate::verif::FailSafeSnap {
+        match &self.state {
+            State::Idle => crate::verif::FailSafeSnap {
+                armed: false,
+                fab_idx: 0,
+                flags: 0,
+                timeout_secs: 0,
+                breadcrumb: self.breadcrumb,
+            },
+            State::Armed(ctx) => crate::verif::FailSafeSnap {
+                armed: true,
+                fab_idx: ctx.fab_idx,
+                flags: ctx.flags.bits(),
+                timeout_secs: ctx.timeout_secs,
+                breadcrumb: self.breadcrumb,
+            },
+        }
+    }
+}
